@@ -165,3 +165,28 @@ def ghosted_date(ld):
     for k, x in (("$y", o._year), ("$m", o._month), ("$d", o._day), ("$o", int(o._calendar_ordinal))):
         object.__setattr__(o, k, x)
     return ld
+
+
+class LocalDateTimeG(Gen):
+    def __init__(self, cal: str = "cal") -> None:
+        self.cal = cal
+
+    def make(self, name, b):
+        from pyvc.values import SObj
+        from pyoda_time._local_date_time import LocalDateTime
+
+        d = LocalDateG(self.cal).make(name + ".date", b)
+        t = LocalTimeG().make(name + ".time", b)
+        return SObj(LocalDateTime, {"_LocalDateTime__date": d, "_LocalDateTime__time": t}, owner=-1, tag=name)
+
+    def realize(self, v, ev, ctx):
+        from pyoda_time import LocalDateTime, LocalTime
+
+        d = LocalDateG(self.cal).realize(v.fields["_LocalDateTime__date"], ev, ctx)
+        n = ev(v.fields["_LocalDateTime__time"].fields["_LocalTime__nanoseconds"])
+        return LocalDateTime._ctor(local_date=d, local_time=LocalTime._ctor(nanoseconds=n))
+
+
+def PeriodG(lo: int = -(10**18), hi: int = 10**18) -> Obj:
+    names = ["years", "months", "weeks", "days", "hours", "minutes", "seconds", "milliseconds", "ticks", "nanoseconds"]
+    return Obj("pyoda_time._period:Period", {f"_Period__{n}": Int(lo, hi) for n in names})
